@@ -3257,6 +3257,120 @@ def gen_sample_names():
     return "\n".join(out), {"rename_exit_test": dict(rows)}
 
 
+def gen_sample_name_policy():
+    """C10 (experiment name = folder name, audit-2 GAP C10-1; one BAM file per list line): four facts about
+    src/input_data_storage.py, each rendered as one of two known shapes (anything else fails loudly).
+
+    * yaml_name_value   how `get_samples_from_yaml` takes the value of the `name` key:
+                        "str" = `current_sample_name = str(sample['name'])`, "raw" = `current_sample_name = sample['name']`
+    * yaml_blank_name   the test that selects the positional name `<prefix><index>`:
+                        "positional" = `sample.get('name') is None or sample['name'] == ''` (a blank / empty value is named by position),
+                        "kept" = `not 'name' in sample.keys()` (only an absent key is)
+    * folder_check      "all_samples" = the loop of `InputDataStorage.__init__` that builds the SampleData objects starts with
+                        `check_experiment_name(experiment_names[i])` and the module-level function is exactly
+                            if name in ('', '.', '..') or os.path.basename(name) != name: logger.critical(...); exit(-1)
+                        "absent" = neither the call nor the function exists
+    * bam_line_files    "one" = the branch of `get_samples_from_file` that reads a file line has, right after
+                        `files = vals[0].split()`, `if self.input_type == 'bam' and len(files) > 1: logger.critical(...); exit(...)`;
+                        "any" = no statement between `files = …` and `if len(vals) > 1:`"""
+    rel = "src/input_data_storage.py"
+    tree = parse(rel)
+    rows = []
+
+    def only_log_and_exit(body, what):
+        exits = [st for st in body if isinstance(st, ast.Expr) and isinstance(st.value, ast.Call)
+                 and isinstance(st.value.func, ast.Name) and st.value.func.id == "exit"]
+        logs = [st for st in body if isinstance(st, ast.Expr) and isinstance(st.value, ast.Call)
+                and ast.unparse(st.value.func).startswith("logger.")]
+        if len(exits) != 1 or len(exits) + len(logs) != len(body) or body[-1] is not exits[0]:
+            raise TranslationError("%s: the guarded block is not `logger.…(...); exit(...)`" % what)
+
+    # --- YAML: value and blank test
+    fn = find_def(tree, "get_samples_from_yaml", cls="InputDataStorage")
+    loops = [n for n in fn.body if isinstance(n, ast.For) and ast.unparse(n.iter) == "con[1:]" and ast.unparse(n.target) == "sample"]
+    if len(loops) != 1:
+        raise TranslationError("get_samples_from_yaml: expected one `for sample in con[1:]`")
+    first = loops[0].body[0]
+    positional = "current_sample_name = self.experiment_prefix + str(current_index)"
+    if not isinstance(first, ast.If) or len(first.body) != 1 or len(first.orelse) != 1 or ast.unparse(first.body[0]) != positional:
+        raise TranslationError("get_samples_from_yaml: the loop no longer starts with `if <no name>: %s else: <name>`" % positional)
+    test = ast.unparse(first.test)
+    if test in ("not 'name' in sample.keys()", "'name' not in sample.keys()", "'name' not in sample"):
+        rows.append(("yaml_blank_name", "kept"))
+    elif test == "sample.get('name') is None or sample['name'] == ''":
+        rows.append(("yaml_blank_name", "positional"))
+    else:
+        raise TranslationError("get_samples_from_yaml: unsupported test for the positional name: %s" % test)
+    given = ast.unparse(first.orelse[0])
+    if given == "current_sample_name = str(sample['name'])":
+        rows.append(("yaml_name_value", "str"))
+    elif given == "current_sample_name = sample['name']":
+        rows.append(("yaml_name_value", "raw"))
+    else:
+        raise TranslationError("get_samples_from_yaml: unsupported use of the name value: %s" % given)
+    others = [n for n in ast.walk(fn) if isinstance(n, ast.Assign) and ast.unparse(n.targets[0]) == "current_sample_name"
+              and n is not first.body[0] and n is not first.orelse[0] and ast.unparse(n.value) != "new_sample_name"]
+    if others:
+        raise TranslationError("get_samples_from_yaml: further assignment to current_sample_name: %s" % ast.unparse(others[0]))
+
+    # --- the folder check
+    init = find_def(tree, "__init__", cls="InputDataStorage")
+    build = [n for n in init.body if isinstance(n, ast.For) and ast.unparse(n.iter) == "range(len(sample_files))"]
+    if len(build) != 1:
+        raise TranslationError("InputDataStorage.__init__: expected one `for i in range(len(sample_files))`")
+    calls = [n for n in ast.walk(tree) if isinstance(n, ast.Call) and isinstance(n.func, ast.Name) and n.func.id == "check_experiment_name"]
+    defs = [n for n in tree.body if isinstance(n, ast.FunctionDef) and n.name == "check_experiment_name"]
+    if not calls and not defs:
+        rows.append(("folder_check", "absent"))
+    else:
+        b0 = build[0].body[0]
+        if len(calls) != 1 or len(defs) != 1 or ast.unparse(b0) != "check_experiment_name(experiment_names[i])":
+            raise TranslationError("InputDataStorage.__init__: check_experiment_name(experiment_names[i]) is not the first statement of "
+                                   "the loop that builds the samples (calls: %d, definitions: %d)" % (len(calls), len(defs)))
+        d = defs[0]
+        if [a.arg for a in d.args.args] != ["name"] or len(d.body) != 1 or not isinstance(d.body[0], ast.If) or d.body[0].orelse:
+            raise TranslationError("check_experiment_name: not a single `if` over `name`")
+        t = ast.unparse(d.body[0].test)
+        if t != "name in ('', '.', '..') or os.path.basename(name) != name":
+            raise TranslationError("check_experiment_name: unsupported test: %s" % t)
+        only_log_and_exit(d.body[0].body, "check_experiment_name")
+        rows.append(("folder_check", "all_samples"))
+    rest = [st for st in build[0].body if "SampleData(" in ast.unparse(st)]
+    if len(rest) != 1 or "os.path.join(args.output, experiment_names[i])" not in ast.unparse(rest[0]):
+        raise TranslationError("InputDataStorage.__init__: the output folder is no longer os.path.join(args.output, experiment_names[i])")
+
+    # --- list files: files of one line
+    fl = find_def(tree, "get_samples_from_file", cls="InputDataStorage")
+    hits = []
+    for n in ast.walk(fl):
+        for blk in ("body", "orelse"):
+            seq = getattr(n, blk, None)
+            if isinstance(seq, list):
+                for k, st in enumerate(seq):
+                    if isinstance(st, ast.Assign) and ast.unparse(st) == "files = vals[0].split()":
+                        hits.append((seq, k))
+    if len(hits) != 1:
+        raise TranslationError("get_samples_from_file: expected one `files = vals[0].split()`")
+    seq, k = hits[0]
+    nxt = seq[k + 1] if k + 1 < len(seq) else None
+    if isinstance(nxt, ast.If) and ast.unparse(nxt.test) == "len(vals) > 1":
+        rows.append(("bam_line_files", "any"))
+    elif (isinstance(nxt, ast.If) and not nxt.orelse and ast.unparse(nxt.test) == "self.input_type == 'bam' and len(files) > 1"
+          and k + 2 < len(seq) and isinstance(seq[k + 2], ast.If) and ast.unparse(seq[k + 2].test) == "len(vals) > 1"):
+        only_log_and_exit(nxt.body, "get_samples_from_file: several BAM files in one line")
+        rows.append(("bam_line_files", "one"))
+    else:
+        raise TranslationError("get_samples_from_file: unsupported statement after `files = vals[0].split()`: %s"
+                               % (ast.unparse(nxt)[:120] if nxt is not None else None))
+    rows.sort()
+    out = ["-- GENERATED by harness/translate.py -- do not edit", "namespace IsoVerif.Gen", "",
+           "/-- how src/input_data_storage.py turns the name a description gives into an experiment name and an output folder",
+           "    (see gen_sample_name_policy) -/",
+           "def name_policy : List (String × String) := [" + ", ".join('("%s", "%s")' % r for r in rows) + "]",
+           "", "end IsoVerif.Gen", ""]
+    return "\n".join(out), {"name_policy": dict(rows)}
+
+
 # ---------------------------------------------------------------------------------------------------
 # C19 / C16: LOOP functions of src/common.py translated from the source (Gen/Loops.lean + Gen/LoopsOps.lean)
 # (added by the transl builder; add-only)
@@ -4067,6 +4181,7 @@ GENERATORS = [("Prims", gen_prims), ("Enums", gen_enums), ("EventClasses", gen_e
               ("CacheProtocol", gen_cache_protocol),   # C20
               ("SampleState", gen_sample_state),       # C10
               ("SampleNames", gen_sample_names),       # C10 (experiment names)
+              ("SampleNamePolicy", gen_sample_name_policy),   # C10 (experiment name = folder name; one BAM file per list line)
               ("ReadGroups", gen_read_groups),         # C09
               ("CigarClasses", gen_cigar_classes),    # C16
               ("Resolver", gen_resolver),             # C08
